@@ -33,7 +33,7 @@ try:
         assert rc == 0, "demo.diff does not apply: " + out
         demo_cmd = meta["demo_cmd"].replace(meta.get("worktree", "/tmp/wt_" + meta["property"]), wt)
         import re
-        demo_cmd = re.sub(r"/tmp/w[t23456]_C\d+", wt, demo_cmd)
+        demo_cmd = re.sub(r"/tmp/w[t0-9]+_C\d+", wt, demo_cmd)
         rc0, out0 = sh(env_off + demo_cmd, wt)
         res["demo_passes_without_patch"] = (rc0 == 0)
         rc, out = sh("git apply %s/patch.diff" % dst, wt)
